@@ -2,6 +2,8 @@ package simkit
 
 import (
 	"fmt"
+	"os"
+	"runtime"
 	"runtime/debug"
 	"strings"
 	"testing"
@@ -25,6 +27,11 @@ func (c *Ctx) Bubble(f func()) {
 				}
 				msg := fmt.Sprint(r)
 				if strings.Contains(msg, "blocked goroutines remain") || strings.Contains(msg, "deadlock") {
+					if debugTrace {
+						buf := make([]byte, 1<<20)
+						buf = buf[:runtime.Stack(buf, true)]
+						os.Stderr.Write(buf)
+					}
 					inner = HarnessError{"bubble ended with blocked goroutines: " + msg}
 					return
 				}
